@@ -129,7 +129,8 @@ def round3 (x : Float) : Float :=
         let r := num - q * d
         if 2 * r < d then q else if 2 * r > d then q + 1 else (if q % 2 == 0 then q else q + 1)
     let mag := Float.ofNat n.natAbs / 1000.0
-    if n < 0 then -mag else mag
+    -- the sign is the argument's: `round(-0.0001, 3)` is `-0.0`
+    if m < 0 || x.toBits.toNat / 2^63 == 1 then -mag else mag
 
 def roundV (p : V3 Float) : V3 Float := ⟨round3 p.x, round3 p.y, round3 p.z⟩
 def radians (d : Float) : Float := d * (3.141592653589793 / 180.0)
